@@ -28,7 +28,7 @@ TRUSTED = ['harness/corr/c13.py: the Python->Lean translator (A3) for fp16_to_fl
            'IEEE-754: CPython float * and / are correctly rounded binary64 operations (modelled exactly by truncRn); '
            'struct codes f/I/h/H/B are little-endian on the host (native = little-endian)',
            'numpy binary64 evaluation of compress/decompress_quaternion (norm, division, sqrt) vs. the real-number functions '
-           'compressR/decompressR the bound is proved for: compared exactly away from rounding boundaries; the 2-step bound has ~25% slack',
+           'compressR/decompressR the bound is proved for: compared exactly away from rounding boundaries; the worst observed error is 1.27 steps against the proved bound of 2',
            'math.degrees (libm) is outside the model: encodeYawDeg takes its result',
            'Spec/C13: IEEE-754 value of binary16/binary32 patterns; device-side layouts of RANGE_STREAM_REPORT and LH_ANGLE_STREAM packets']
 ASSUMPTIONS = ['quaternion / coordinate inputs are finite floats (NaN/inf inputs are outside the model)',
@@ -845,6 +845,14 @@ def gen_quats(rng, n_random):
         out.append(('grid', [pat[0] * 0.5, pat[1] * 0.5, pat[2] * 0.5, pat[3] * 0.5]))
         out.append(('tie', [pat[0] * 3.0, pat[1] * 3.0, pat[2] * 1.0, pat[3] * 2.0]))
         out.append(('tie', [pat[0] * 1.0, pat[1] * 2.0, pat[2] * 2.0, pat[3] * 0.0]))
+    for _ in range(80):
+        # stored components placed (to within an ulp) ON a rounding boundary of int(511*sqrt2*|x| + 0.5): the binary64 evaluation
+        # may legitimately land on either side; the exact model says which side the real number is on
+        m1, m2 = rng.randrange(1, 300), rng.randrange(1, 300)
+        x, y = (m1 - 0.5) / (511 * math.sqrt(2)), rng.choice([1, -1]) * (m2 - 0.5) / (511 * math.sqrt(2))
+        q = [math.sqrt(1 - x * x - y * y), x, y, 0.0]
+        rng.shuffle(q)
+        out.append(('on-boundary', q))
     for _ in range(n_random):
         kind = rng.choice(['unit', 'unit', 'unnorm', 'small', 'axisish', 'twoeq', 'negzero'])
         q = [rng.gauss(0, 1) for _ in range(4)]
